@@ -31,6 +31,21 @@ CLAIMED['C07'] = dict(
         'Correspondence: exhaustive assignment vectors over a gapped alphabet x int32/int64/uint16/uint32 x spike-id vectors, unsorted/absent requests, random long vectors, TemplateModel queries on generated datasets.',
    note='grouped_mean: integer-valued data (exact sums); the single float division is compared with the correctly rounded exact quotient.',
    tech='Lean 4 theorems (stable-sort block decomposition, fold invariants) over a hand-written model + differential correspondence against /repo', ref='§5 C07')
+CLAIMED['C01'] = dict(
+   text='Theorem (any number of parts of any lengths, rows of any type, with no non-emptiness assumption): for every in-domain index (int in [-n,n), unit-step slice with bounds in [-n,n] or None selecting >= 1 row, non-empty strictly increasing list within [0,n)) the split-over-parts / read / vstack algorithm returns exactly NumPy indexing of the concatenation, also followed by any channel selector; sample count = length of the concatenation; rows recovered exactly from file size, offset, item size. '
+        'Correspondence: real flat (1..k files, header offsets, 5 dtypes), npy, in-memory and cbin readers; all compositions of n <= N x all index expressions x column selectors, python and numpy index objects; plus reader attributes.',
+   note='np.memmap / np.load / mtscomp decoding are transport; the oracle for reader[item, cols] is A[item][:, cols].',
+   tech='Lean 4 theorems (walker over parts = drop/take of the concatenation; sorted-bounds/searchsorted characterisation) + differential correspondence against /repo', ref='§5 C01')
+CLAIMED['C19'] = dict(
+   text='Theorems over all histories: every emit calls exactly the callbacks registered by the history before it for that event whose sender filter is absent or equal, registration order with `last` after the others, results in call order (first only with single), and nothing (None) while silenced at any nesting depth of silent contexts / set_silent; leaving contexts restores the state; progress reporter: a completion is announced at a step iff it is a value update reaching the maximum and none was announced since the value was last set below the maximum or the maximum was last raised. '
+        'Correspondence: exhaustive op sequences over a fixed alphabet (emitter length <= 3/4, reporter <= 4/5) + random longer ones against the real EventEmitter / ProgressReporter with recording stubs.',
+   note='Python call protocol (argument passing) is checked on the Python side only; senders/callbacks are tokens in the model.',
+   tech='Lean 4 theorems by invariant over operation histories (refinement to a history-based spec) + differential correspondence against /repo', ref='§5 C19')
+CLAIMED['C20'] = dict(
+   text='Theorems for every hash function, prior file state and pair of server scripts of any length: a normal return with an answered last checksum fetch leaves a file hashing to that checksum; a valid existing file is not refetched; at most two data requests, a second one exactly after a mismatch; persistent mismatch raises; an HTTP error on a data request never yields a normal return. '
+        'Correspondence: the whole scripted space (3 priors x data scripts <= 3 x checksum scripts <= 3 over 4 answers) through the in-process `responses` mock, plus body sizes 0 B / 1 B / > 1 MiB.',
+   note='requests, streaming and hashlib are outside the model; crash/partial-write behaviour is not modelled.',
+   tech='Lean 4 theorems by exhaustive case analysis of the decision tree (symbolic in hash and script tails) + differential correspondence against /repo', ref='§5 C20')
 REASONS = {}
 
 checks = []
